@@ -5,6 +5,9 @@ import "fmt"
 // scenario i: profile by index (every run covers every profile), actions by the scenario's PRNG.
 func (h *H) scenario(i int) {
 	if i < len(scripted) {
+		if scripted[i].nodes > 0 {
+			h.n = scripted[i].nodes
+		}
 		h.prof = scripted[i].name
 		h.c.Count("profile-" + h.prof)
 		h.boot()
@@ -18,7 +21,7 @@ func (h *H) scenario(i int) {
 		return
 	}
 	i -= len(scripted)
-	profs := []string{"clean", "clean", "bigfile", "clean", "multishard", "applyfail", "forced", "bigfile"}
+	profs := []string{"clean", "clean", "bigfile", "clean", "multishard", "applyfail", "forced", "bigfile", "race"}
 	h.prof = profs[i%len(profs)]
 	h.c.Count("profile-" + h.prof)
 	h.c.Count(fmt.Sprintf("nodes-%d", h.n))
@@ -95,7 +98,11 @@ func (h *H) scenario(i int) {
 		case d < 72:
 			for n := 0; n < h.n; n++ {
 				if !h.mir[n].up {
-					h.actRestart(n)
+					if h.prof == "race" && h.r.Chance(60) {
+						h.actRestartLate(n)
+					} else {
+						h.actRestart(n)
+					}
 					if !h.cl.alive[n] {
 						h.actMeta(n, true)
 					}
@@ -130,6 +137,9 @@ func (h *H) scenario(i int) {
 // windDown: everything released, everybody back, one last look
 func (h *H) windDown(shards int) {
 	for n := 0; n < h.n && h.err == nil; n++ {
+		if h.mir[n].up && h.mir[n].replayPending {
+			h.actReplayLate(n)
+		}
 		if h.mir[n].up && h.mir[n].gated {
 			h.actGate(n, false)
 		}
@@ -205,6 +215,7 @@ type script struct {
 	name   string
 	shards int
 	f      func(h *H)
+	nodes  int // 0 = whatever the run drew
 }
 
 func (h *H) w(p, k, sh, pad int) {
@@ -234,7 +245,7 @@ var scripted = []script{
 		h.actElect()
 		h.pickLeader()
 		h.w(int(h.rgp().MasterPtID), 3, 1, 0)
-	}},
+	}, 0},
 	// the writer is answered only after the local apply, and with its result
 	{"ack-order", 1, func(h *H) {
 		h.actLead(1)
@@ -244,7 +255,7 @@ var scripted = []script{
 		h.actFailNext(0)
 		h.w(0, 2, 1, 0) // the apply fails on the proposer: the writer must see the error
 		h.w(0, 2, 1, 0)
-	}},
+	}, 0},
 	// a proposal of an earlier life that commits after the restart must not answer a new writer
 	{"pid-reuse", 1, func(h *H) {
 		h.actLead(0)
@@ -258,7 +269,7 @@ var scripted = []script{
 		h.actHold(0, false)   // it learns the commit index and applies the entry of its first life
 		h.actKill(0)          // the new proposal never left the node
 		h.actRestart(0)
-	}},
+	}, 0},
 	// flush: a kill between the table switch and the commit of the files
 	{"flush-kill", 1, func(h *H) {
 		h.actLead(0)
@@ -271,7 +282,7 @@ var scripted = []script{
 		h.flush(1, 1)
 		h.actKill(1)
 		h.actRestart(1)
-	}},
+	}, 0},
 	// the snapshot index is per partition, a flush is per shard
 	{"multishard", 2, func(h *H) {
 		h.actLead(0)
@@ -280,7 +291,7 @@ var scripted = []script{
 		h.flush(1, 1)
 		h.actKill(1)
 		h.actRestart(1)
-	}},
+	}, 0},
 	// truncation proposed by the leader: followers that have not flushed yet
 	{"trunc-follower", 1, func(h *H) {
 		h.actLead(0)
@@ -292,7 +303,7 @@ var scripted = []script{
 		h.actKill(1)
 		h.actRestart(1)
 		h.w(0, 1, 1, 0)
-	}},
+	}, 0},
 	// truncation with a lagging member: the rule must keep what it still needs
 	{"trunc-lagging", 1, func(h *H) {
 		h.actLead(0)
@@ -306,7 +317,7 @@ var scripted = []script{
 		h.actTrunc(false)
 		h.actHold(2, false)
 		h.w(0, 1, 1, 0)
-	}},
+	}, 0},
 	// restart-time truncation on both other members while the third lags: dataless snapshot
 	{"restart-strands", 1, func(h *H) {
 		h.actLead(0)
@@ -324,7 +335,7 @@ var scripted = []script{
 		h.actHold(2, false)
 		h.pickLeader()
 		h.actRestart(0)
-	}},
+	}, 0},
 	// forced truncation after the tolerate time, the inactive member rejoins
 	{"forced-trunc", 1, func(h *H) {
 		h.actLead(0)
@@ -340,7 +351,29 @@ var scripted = []script{
 		h.actTrunc(true)
 		h.actRestart(2)
 		h.actMeta(2, true)
-	}},
+	}, 0},
+	// the start-up replay applied after an entry committed since (engine starts the commit loop first)
+	{"replay-race", 1, func(h *H) {
+		h.actLead(0)
+		h.w(0, 1, 1, 0)
+		h.w(0, 2, 1, 0)
+		h.actKill(1)
+		h.w(0, 1, 1, 0) // overwrites key 1 while node 1 is down
+		h.actRestartLate(1)
+		h.actReplayLate(1)
+	}, 3},
+	// ts-meta must skip a peer that is not online
+	{"elect-skips-offline", 1, func(h *H) {
+		h.actLead(2)
+		h.w(0, 1, 1, 0)
+		h.actKill(1)
+		h.actMeta(1, false)
+		h.w(0, 1, 1, 0)
+		h.actKill(0)
+		h.actMeta(0, false)
+		h.actElect()
+		h.w(int(h.rgp().MasterPtID), 2, 1, 0)
+	}, 5},
 	// truncation by size on the leader while a member is down
 	{"size-trunc", 1, func(h *H) {
 		h.actLead(0)
@@ -354,5 +387,5 @@ var scripted = []script{
 		h.actTruncSize(0)
 		h.actTruncSize(1)
 		h.actRestart(2)
-	}},
+	}, 0},
 }
